@@ -13,7 +13,7 @@ import random
 from pathlib import Path
 
 from . import tlc
-from .core import Machinery, Outcome, ensure_repo_on_path, pmap
+from .core import Machinery, Outcome, ensure_repo_on_path, pmap, chunked
 from . import decio
 from .pdgdata import tables as pdg_tables
 
@@ -158,6 +158,7 @@ decio.Concretiser.rname = _rname
 STRIP = ("text", "xtext", "maps", "cid")
 
 
+@chunked()
 def judge(cases, wd: Path, o: Outcome, what: str, module: str = "DecTrace"):
     """Validate `cases` with TLC; return {index: [fail records]} for rejected cases."""
     if not cases:
